@@ -630,6 +630,33 @@ pub fn run(tier: &str) -> i32 {
         rep.set("corpus_repetition", json!({"programs": across.len(), "processes": jobs.len(), "repetitions_per_process": if thorough { 8 } else { 4 }}));
     }
 
+    // ---- (3c) a formatter that answers late (the result does not depend on how long the formatter takes): the genuine
+    // formatter behind a stub that waits 8 s (thorough: also 40 s) before it prints
+    {
+        let stub_dir = root().join("target").join("c18-slowfmt");
+        let _ = std::fs::remove_dir_all(&stub_dir);
+        std::fs::create_dir_all(&stub_dir).unwrap();
+        std::fs::copy(std::env::current_exe().unwrap(), stub_dir.join("rustfmt")).unwrap();
+        let real = crate::c19::find_real_rustfmt().unwrap_or_else(|| machinery("C18: no genuine rustfmt on PATH"));
+        let path = format!("{}:{}", stub_dir.display(), std::env::var("PATH").unwrap_or_default());
+        let delays: Vec<u64> = if thorough { vec![8_000, 40_000] } else { vec![8_000] };
+        let res = par_map(&delays, |d| run_child(&["c18-history", "5,0"], &[("PATH", path.clone()), ("VERIF_FMT_SCRIPT", format!("read:all;sleep:{d};write:real;exit:0")), ("VERIF_REAL_RUSTFMT", real.display().to_string())], false, None));
+        for (d, r) in delays.iter().zip(res.iter()) {
+            rep.states += 1;
+            rep.evaluations += 2;
+            let v = match r {
+                Ok(v) => v,
+                Err(e) => machinery(&format!("C18 slow-formatter child failed: {e}")),
+            };
+            for (j, i) in [5usize, 0].iter().enumerate() {
+                let got = v["digests"][j].as_str().unwrap_or("");
+                if got != reference[i] {
+                    rep.violation(format!("slow-formatter|delay={d}ms|input={}", alpha[*i].name), format!("{} returned {got} when the formatter took {d} ms to answer; reference {}", alpha[*i].name, reference[i]), json!({"wgsl": alpha[*i].src, "config": alpha[*i].cfg.key(), "expected": reference[i], "observed": got}));
+                }
+            }
+        }
+        rep.set("slow_formatter_delays_ms", json!(delays));
+    }
     // ---- (4) syscall monitor
     let strace_note = syscall_monitor(&mut rep);
     rep.set("syscall_monitor", json!(strace_note));
@@ -650,7 +677,7 @@ pub fn run(tier: &str) -> i32 {
     rep.traces_validated = rep.evaluations;
     rep.sample(json!({"history": ["A", "B", "A-rustfmt"], "inputs": {"A": SHADER_A, "B": SHADER_B}}));
     rep.sample(json!({"schedule_threads": [["A"], ["B"]], "yield_points": ["gen:parsed", "gen:validated", "gen:groups", "gen:stages", "gen:structs", "gen:consts", "gen:bindgroups", "gen:vertex", "gen:compute", "gen:entries", "gen:overrides", "gen:assembled"]}));
-    rep.rule = format!("(1) all call sequences of length <= {depth} over a 6-input alphabet and over one source under 4 option sets (validator accepts / rejects / off / everything on) built to collide (shaders A and B declare the same struct / variable / entry names with different types, stages and groups; a parse error; non-consecutive groups; an input that panics inside generation; A with rustfmt) in one fresh process each, every result compared with the same input alone in a fresh process; (2) real threads running real calls under a controlled scheduler (12 section yield points per call), all schedules within the stated preemption bound per thread program; (3) {seeds} enumerated hash seeds (getrandom interposer) x working directory {{/, empty dir, a dir where the include path exists, inherited}} x environment {{inherited, cleared, noisy, no formatter on PATH}}; (4) strace monitors (formatter off: no file/process/network call at all; formatter on: the calling process creates / writes / removes no file) and source audit. Oracle: byte-identical text / same error variant as the isolated reference.");
+    rep.rule = format!("(1) all call sequences of length <= {depth} over a 6-input alphabet and over one source under 4 option sets (validator accepts / rejects / off / everything on) built to collide (shaders A and B declare the same struct / variable / entry names with different types, stages and groups; a parse error; non-consecutive groups; an input that panics inside generation; A with rustfmt) in one fresh process each, every result compared with the same input alone in a fresh process; (2) real threads running real calls under a controlled scheduler (12 section yield points per call), all schedules within the stated preemption bound per thread program; (3) {seeds} enumerated hash seeds (getrandom interposer) x working directory {{/, empty dir, a dir where the include path exists, inherited}} x environment {{inherited, cleared, noisy, no formatter on PATH}}; a genuine formatter that answers after 8 s (thorough: 40 s); (4) strace monitors (formatter off: no file/process/network call at all; formatter on: the calling process creates / writes / removes no file) and source audit. Oracle: byte-identical text / same error variant as the isolated reference.");
     rep.finish()
 }
 
